@@ -308,6 +308,18 @@ func c18Round(run *common.Run, round int, engine string, nscans int) {
 				req := &btpb.ReadRowsRequest{TableName: table}
 				if lo != 0 || hi != N-1 {
 					req.Rows = &btpb.RowSet{RowRanges: []*btpb.RowRange{{StartKey: &btpb.RowRange_StartKeyClosed{StartKeyClosed: []byte(key(lo))}, EndKey: &btpb.RowRange_EndKeyClosed{EndKeyClosed: []byte(key(hi))}}}}
+				} else if sr.Chance(1, 3) || (engine == "btree" && sr.Bool()) {
+					// a range with only one bound (the storage engines have a separate iteration entry point for each
+					// combination of bounds)
+					if sr.Chance(2, 3) {
+						hi = N/2 + sr.Intn(N/2)
+						req.Rows = &btpb.RowSet{RowRanges: []*btpb.RowRange{{EndKey: &btpb.RowRange_EndKeyClosed{EndKeyClosed: []byte(key(hi))}}}}
+						run.Count("scans_with_only_an_end_bound", 1)
+					} else {
+						lo = sr.Intn(N / 2)
+						req.Rows = &btpb.RowSet{RowRanges: []*btpb.RowRange{{StartKey: &btpb.RowRange_StartKeyClosed{StartKeyClosed: []byte(key(lo))}}}}
+						run.Count("scans_with_only_a_start_bound", 1)
+					}
 				}
 				var gaps [][2]int
 				if sr.Chance(1, 3) || (createG && sr.Chance(1, 2)) {
@@ -331,7 +343,14 @@ func c18Round(run *common.Run, round int, engine string, nscans int) {
 					}
 					if sc == 0 {
 						wctx, wcancel := context.WithTimeout(context.Background(), 30*time.Second)
-						_, werr := wdata.MutateRow(wctx, &btpb.MutateRowRequest{TableName: table, RowKey: []byte("zzz-no-such-row"), Mutations: drive.MutsToProto([]model.Mut{{Kind: model.DelRow}})})
+						var werr error
+						if n := atomic.AddInt64(&updates, 0); n%3 == 2 {
+							// ... or the administrative way of deleting rows, with a prefix that no row has
+							_, werr = srv.Admin.DropRowRange(wctx, &btapb.DropRowRangeRequest{Name: table, Target: &btapb.DropRowRangeRequest_RowKeyPrefix{RowKeyPrefix: []byte("zzz-no-such-row")}})
+							run.Count("prefix_drops_matching_no_row_between_two_messages_of_a_scan", 1)
+						} else {
+							_, werr = wdata.MutateRow(wctx, &btpb.MutateRowRequest{TableName: table, RowKey: []byte("zzz-no-such-row"), Mutations: drive.MutsToProto([]model.Mut{{Kind: model.DelRow}})})
+						}
 						wcancel()
 						if status.Code(werr) == codes.DeadlineExceeded {
 							writeErr.Store("a client that writes a row between reading two messages of its own scan got no answer to the write within 30 s (the scan it had not finished reading kept the table locked)")
